@@ -29,8 +29,8 @@ def makeKey (tunnelID : String) : String := ("tunnox:tunnel_waiting:" ++ tunnelI
 def GetNodeAddress_key (nodeID : String) : String := (("tunnox:node:" ++ nodeID) ++ ":addr")
 def RegisterNodeAddress_key (nodeID : String) : String := (("tunnox:node:" ++ nodeID) ++ ":addr")
 def DefaultConfig_PersistentPrefixes : List String := ["tunnox:user:", "tunnox:client:", "tunnox:config:client:", "tunnox:persist:client:config:", "tunnox:persist:clients:list", "tunnox:mapping:", "tunnox:persist:mapping:", "tunnox:persist:mappings:list", "tunnox:stats:persistent:"]
-def DefaultConfig_SharedPrefixes : List String := ["tunnox:conn_state:", "tunnox:client_conn:", "tunnox:tunnel_waiting:", "tunnox:node:", "tunnox:runtime:conncode:", "tunnox:index:conncode:target:", "tunnox:id:", "tunnox:runtime:client:state:", "tunnox:http_domain:index:", "tunnox:http_domain:next_id", "tunnox:http_domain:deleting:"]
-def DefaultConfig_SharedPersistentPrefixes : List String := ["tunnox:client_mappings:", "tunnox:user_mappings:", "tunnox:port_mapping:", "tunnox:mappings:list", "tunnox:http_domain:mapping:", "tunnox:http_domain:client:", "webhook:", "webhooks:", "webhook_log:", "webhook_logs:"]
+def DefaultConfig_SharedPrefixes : List String := ["tunnox:conn_state:", "tunnox:client_conn:", "tunnox:tunnel_waiting:", "tunnox:node:", "tunnox:runtime:conncode:", "tunnox:index:conncode:target:", "tunnox:id:", "tunnox:runtime:client:state:", "tunnox:http_domain:index:", "tunnox:http_domain:next_id", "tunnox:http_domain:deleting:", "lock:"]
+def DefaultConfig_SharedPersistentPrefixes : List String := ["tunnox:client_mappings:", "tunnox:user_mappings:", "tunnox:port_mapping:", "tunnox:mappings:list", "tunnox:http_domain:mapping:", "tunnox:http_domain:client:", "tunnox:http_domain:mappings:list", "webhook:", "webhooks:", "webhook_log:", "webhook_logs:"]
 def DefaultConfig_DefaultCacheTTL : Nat := 3600000000000
 def DefaultConfig_EnablePersistent : Bool := false
 end C09
